@@ -442,8 +442,8 @@ func (c *FnCtx) staticCall(fr *Frame, st *State, x *ssa.Call, callee *ssa.Functi
 	}
 	fc := c.eng.ld.byFn[callee]
 	if fc != nil && fc.Pure && (fr.ghost || c.noObl > 0) && callee != c.top {
-		// mention of a pure function inside a contract clause: its summary
-		c.setResult(fr, x, c.pureSummary(st, callee, args))
+		// mention of a pure function inside a contract clause: its summary together with its (proved) postconditions
+		c.setResult(fr, x, c.callContract(fr, st, x, callee, fc, args))
 		return
 	}
 	onStack := false
